@@ -65,6 +65,9 @@ func runC01(c *Ctx) {
 	c.r0117(pk)
 	c.r0118(pk)
 	c.r0119(pk)
+	c.r0120(pk)
+	c.r0121(pk)
+	c.r0122(pk)
 }
 
 // R01.13: traversals of binding patterns reach every nested binding.
@@ -1828,6 +1831,12 @@ func init() {
 	mutant(&Mutant{Name: "c01-pattern-moved-past-initializers", Property: "C01", File: "js/vars.go",
 		Old: "interferes := item.Default != nil && prevDefault", New: "_ = prevDefault\n\t\t\t\t\tinterferes := false",
 		Rule: "R01.19", Construct: "only in front of uninitialised items"})
+	mutant(&Mutant{Name: "c01-hex-digit-e-ends-the-zero-scan", Property: "C01", File: "js/util.go",
+		Old: "if !hasPrefix && (c == 'e' || c == 'E') || c == 'n' {", New: "if c == 'e' || c == 'E' || c == 'n' {",
+		Rule: "R01.20", Construct: "HexadecimalToken"})
+	mutant(&Mutant{Name: "c01-class-declaration-dropped-blindly", Property: "C01", File: "js/stmtlist.go",
+		Old: "\t\t\t\tif hasSideEffects(classDecl) {\n\t\t\t\t\treturn blockStmt // extends, computed names and static initializers are evaluated\n\t\t\t\t}\n", New: "\t\t\t\t_ = classDecl\n",
+		Rule: "R01.21", Construct: "class declaration dropped"})
 	mutant(&Mutant{Name: "c01-laststmt-looks-through-labels", Property: "C01", File: "js/util.go",
 		Old: "\t\treturn lastStmt(block.List[len(block.List)-1])\n\t}\n", New: "\t\treturn lastStmt(block.List[len(block.List)-1])\n\t} else if labelled, ok := stmt.(*js.LabelledStmt); ok {\n\t\treturn lastStmt(labelled.Value)\n\t}\n",
 		Rule: "R01.17", Construct: "lastStmt"})
